@@ -2851,4 +2851,72 @@ theorem exWriteQueryCols_exact (env : Env) (isInsert : Bool) (tgt : List String)
     exact ⟨rfl, rfl⟩
 
 
+/-- **end to end, statement level, column list** -/
+theorem analyze_exact_cols (env : Env) (silent : Bool) (s : Stmt) (hp : env.prov.truthy = false)
+    (hs : fragStmtCols env s = true) :
+    ∃ g, analyze env silent s = .ok g ∧
+      EdgesExact g (specPairsPos env (stmtTarget s) (stmtCols s) (stmtItems s) (stmtFrom s)) (fromTabs env (stmtFrom s))
+        (listedOwners env (stmtTarget s) (stmtCols s)) := by
+  cases s with
+  | insert kd tk tgt cols q br =>
+    cases cols with
+    | none => simp [fragStmtCols] at hs
+    | some cs =>
+      cases q with
+      | setop _ _ => simp [fragStmtCols, fragSelectCols] at hs
+      | withq _ _ => simp [fragStmtCols, fragSelectCols] at hs
+      | select d its frm wh grp hav =>
+        have := exWriteQueryCols_exact env true tgt cs d its frm wh grp hav hp (by simpa [fragStmtCols] using hs)
+        unfold analyze
+        have hd : dispatch (stmtType (.insert kd tk tgt (some cs) (.select d its frm wh grp hav) br)) =
+            some "CreateInsertExtractor" := disp_insert
+        rw [hd]
+        exact this
+  | createView tgt orr cols q =>
+    cases cols with
+    | none => simp [fragStmtCols] at hs
+    | some cs =>
+      cases q with
+      | setop _ _ => simp [fragStmtCols, fragSelectCols] at hs
+      | withq _ _ => simp [fragStmtCols, fragSelectCols] at hs
+      | select d its frm wh grp hav =>
+        have := exWriteQueryCols_exact env false tgt cs d its frm wh grp hav hp (by simpa [fragStmtCols] using hs)
+        unfold analyze
+        have hd : dispatch (stmtType (.createView tgt orr (some cs) (.select d its frm wh grp hav))) =
+            some "CreateInsertExtractor" := disp_create_view
+        rw [hd]
+        exact this
+  | ctas _ _ _ _ _ => simp [fragStmtCols] at hs
+  | query _ _ => simp [fragStmtCols] at hs
+  | insertValues _ _ _ => simp [fragStmtCols] at hs
+  | createTable _ _ _ => simp [fragStmtCols] at hs
+  | createTableLike _ _ => simp [fragStmtCols] at hs
+  | update _ _ _ _ _ => simp [fragStmtCols] at hs
+  | merge _ _ _ _ _ _ => simp [fragStmtCols] at hs
+  | copy _ _ => simp [fragStmtCols] at hs
+  | drop _ _ _ => simp [fragStmtCols] at hs
+  | alterRename _ _ => simp [fragStmtCols] at hs
+  | renameTable _ => simp [fragStmtCols] at hs
+  | noop _ _ => simp [fragStmtCols] at hs
+  | unsupported _ => simp [fragStmtCols] at hs
+
+theorem mem_specPairsPos (env : Env) (tgt : List String) (cs : List String) (its : List Item) (frm : List FromExpr)
+    (u v : Node) :
+    (u, v) ∈ specPairsPos env tgt cs its frm ↔
+      ∃ e a k c, (Item.mk e a k, c) ∈ its.zip cs ∧ ∃ r ∈ refs e,
+        u = (srcCol env.importDefault (fromTabs env frm) (normRef r)).key ∧
+        v = .col ((mkTable env tgt none).printed ++ "." ++ Ident.escapeS c) (some (mkTable env tgt none).d) := by
+  unfold specPairsPos
+  rw [List.mem_flatMap]
+  constructor
+  · rintro ⟨ic, hic, h⟩
+    obtain ⟨⟨e, a, k⟩, c⟩ := ic
+    obtain ⟨r, hr, h1⟩ := List.mem_map.mp h
+    simp only [Prod.mk.injEq] at h1
+    exact ⟨e, a, k, c, hic, r, hr, h1.1.symm, h1.2.symm⟩
+  · rintro ⟨e, a, k, c, hic, r, hr, h1, h2⟩
+    refine ⟨(.mk e a k, c), hic, List.mem_map.mpr ⟨r, hr, ?_⟩⟩
+    rw [h1, h2]; rfl
+
+
 end SqlLineage.ColumnsExact
